@@ -485,6 +485,10 @@ def run_pipelines(jobs, driver, timeout=1500, keep_lines=5):
                 elif line.startswith("SAMPLE"):
                     if len(res["samples"]) < keep_lines:
                         res["samples"].append(line[7:])
+                elif line.startswith("SITE"):
+                    parts = line.split()
+                    if len(parts) >= 6:
+                        res.setdefault("sites", {}).setdefault(label.split(":")[1] if ":" in label else label, {}).setdefault(parts[1], set()).add((parts[2], parts[3], parts[4]))
                 elif line.startswith("EXTRA"):
                     _, k, v = line.split()
                     res["extra"][k] = res["extra"].get(k, 0) + int(v)
